@@ -15,6 +15,7 @@ VERIF = Path(__file__).resolve().parent.parent
 SPEC = VERIF / "spec"
 JAR = "/opt/veriftools/tla/tla2tools.jar:/opt/veriftools/tla/CommunityModules-deps.jar"
 NPROC = int(os.environ.get("VERIF_NPROC", "16"))
+TLC_PROCS = int(os.environ.get("VERIF_TLC_PROCS", "12"))
 
 
 class MachineryError(RuntimeError):
@@ -22,8 +23,15 @@ class MachineryError(RuntimeError):
 
 
 def tlc_cmd(module, cfg=None, *, workers=1, xmx="2g", metadir=None, extra=()):
-    cmd = ["java", "-XX:+UseParallelGC", f"-Xmx{xmx}", "-cp", JAR, "tlc2.TLC",
-           "-workers", str(workers), "-noGenerateSpecTE"]
+    # Many small single-worker JVMs run side by side for trace validation: serial GC, two
+    # "processors" and a small fingerprint set measured 2-3x faster than the defaults here.
+    if workers == 1:
+        jvm = ["-XX:+UseSerialGC", "-XX:ActiveProcessorCount=2", "-Xms256m", f"-Xmx{xmx}"]
+        tl = ["-fpmem", "0.1"]
+    else:
+        jvm = ["-XX:+UseParallelGC", f"-Xmx{xmx}"]
+        tl = []
+    cmd = ["java", *jvm, "-cp", JAR, "tlc2.TLC", "-workers", str(workers), "-noGenerateSpecTE", *tl]
     if metadir:
         cmd += ["-metadir", str(metadir)]
     cmd += ["-config", cfg or f"{module}.cfg", *extra, f"{module}.tla"]
@@ -108,7 +116,7 @@ def validate_traces(module, cases, *, nproc=None, timeout=3600, extra_env=None):
     (verdicts: {cid: record}, stats: {generated, distinct, tlc_runs, wall_s}).
     Every case must get exactly one verdict, otherwise MachineryError.
     """
-    nproc = nproc or NPROC
+    nproc = nproc or TLC_PROCS
     if not cases:
         return {}, {"generated": 0, "distinct": 0, "tlc_runs": 0, "wall_s": 0.0}
     k = max(1, min(nproc, len(cases)))
